@@ -50,7 +50,7 @@ Init == /\ \E n \in 0..MaxAtoms, s \in {0, 1} :
              \E c \in [1..n -> ChainPalette], r \in [1..n -> ResPalette] :
                 T = [i \in 1..n |-> Row(c[i], r[i], i, IF s = 0 THEN i ELSE MaxSerial + i)]
         /\ fmt \in {"cif", "pdb"}
-        /\ (fmt = "pdb" => Fits(T))        \* a PDB-derived frame comes out of fixed columns
+        /\ (fmt = "pdb" => Fits(T) /\ Len(T) <= 2)   \* a PDB-derived frame comes out of fixed columns
         /\ pc = "start" /\ out = T /\ result = "none" /\ k = 1 /\ cur = 0 /\ last = <<>>
 
 \* ------------------------------------------------------------------ helpers (order of appearance)
